@@ -1,4 +1,5 @@
 import PysnarkModel.Lemmas.InvRun
+import PysnarkModel.Lemmas.CohRun
 /-!
 # C04 — every reported value equals its wire expression on the recorded witness
 
@@ -14,16 +15,31 @@ def C04_full : Prop :=
     (∀ w, Instr.lit w ∈ prog → w.noSecret = true) →
     ∀ out, run (St.init p bl res) prog = out → out.err = none → ∀ v ∈ out.regs, GoodV out.st v
 
-/-- proved for `Fragment`, which includes guarded regions with a false guard (where error
-suppression is on internally).  Not covered by a theorem: user-selected ignore-errors mode
-(`set ign`), nested guarded regions, and `/` in programs with a guarded region — these are covered
-by the correspondence run and the direct oracle only.  (Before the repair recorded as
-C04-div-const the last exclusion was a genuine counterexample.) -/
-theorem C04_partial (p : Nat) (hp : p.Prime) (bl res : Nat) (prog : List Instr) (hfrag : Fragment prog)
+/-- **C04 at full strength**: every program of the instruction language — guarded regions nested
+to any depth with either guard value, `/` anywhere, and BOTH error modes (`set ign` is allowed:
+user-selected ignore-errors mode, in which even the guard may be a non-bit) — every prime, every
+bitlength and resolution.  Proof: `run_coh` (Lemmas/CohRun.lean), over the weak invariant `Wk`
+("`LinComb.ONE` and the guard are coherent"); every result of the library is a fresh wire, a
+linear combination of coherent operands, `ONE`, or — the one arm with content — `LinComb / int`,
+whose error-suppressed branch returns `value·c⁻¹ mod p` with wire expression `lc·c⁻¹` since the
+repair recorded as C04-div-const. -/
+theorem C04 : C04_full := fun p hp bl res prog hlit out hout _ => by
+  subst hout
+  exact run_coh_plain p hp bl res prog hlit
+
+/-- Stronger than the property asks: no assumption that the run completes (when it raises, the
+registers computed before the failing instruction are coherent in the reported state) -/
+theorem C04_any (p : Nat) (hp : p.Prime) (bl res : Nat) (prog : List Instr)
+    (hlit : ∀ w, Instr.lit w ∈ prog → w.noSecret = true) :
+    ∀ v ∈ (run (St.init p bl res) prog).regs, GoodV (run (St.init p bl res) prog).st v :=
+  run_coh_plain p hp bl res prog hlit
+
+/-- the first form of the theorem (for `Fragment`), now a corollary -/
+theorem C04_partial (p : Nat) (hp : p.Prime) (bl res : Nat) (prog : List Instr) (_hfrag : Fragment prog)
     (hlit : ∀ w, Instr.lit w ∈ prog → w.noSecret = true)
     (out : Out) (hout : run (St.init p bl res) prog = out) (herr : out.err = none) :
     ∀ v ∈ out.regs, GoodV out.st v :=
-  (run_inv_plain p hp bl res prog hfrag hlit out hout herr).2
+  C04 p hp bl res prog hlit out hout herr
 
 /-- the linear arithmetic keeps value and wire expression in step in EVERY mode (no hypothesis on
 guards or error suppression): `+`, `-`, unary `-`, `* int`, constants, the in-place `value %= p` -/
@@ -35,6 +51,24 @@ theorem C04_linear {s : St} {a b : LinComb} (ha : Good s a) (hb : Good s b) (c :
 /-- coherence, once established, survives everything that happens later -/
 theorem C04_monotone {s s' : St} (h : s.le s') {x : LinComb} (hx : Good s x) : Good s' x := hx.mono h
 
+/-- `LinComb / int` is coherent on both arms, whatever the mode and the guards (the arm that was
+finding C04-div-const before the repair) -/
+theorem C04_div_const {s s' : St} {a r : LinComb} {c : Int} (hs : Wk s) (hP : PrimeP s) (ha : Good s a)
+    (h : truedivLI a c s = .ok (r, s')) : Good s' r :=
+  (W.truedivLI_spec hs hP ha h).2.2.2
+
+/-- the hypothesis on literals cannot be dropped (a literal could smuggle in an incoherent object) -/
+theorem C04_needs_plain_literals :
+    ¬ (∀ (p : Nat) (_ : p.Prime) (bl res : Nat) (prog : List Instr)
+      (out : Out) (_ : run (St.init p bl res) prog = out) (_ : out.err = none),
+      ∀ v ∈ out.regs, GoodV out.st v) := by
+  intro hall
+  have hregs := hall 3 (by norm_num) 16 8 [Instr.lit (.lc ⟨1, []⟩)] _ rfl rfl
+  have hg := hregs (.lc ⟨1, []⟩) (by simp [run, runAux, step, pure, M.pure])
+  rw [GoodV_lc] at hg
+  have hc := hg.2
+  simp [Coh, LC.eval, run, runAux, step, pure, M.pure, St.init] at hc
+
 /-! non-vacuity: under a false guard the comparison of out-of-range values takes the
 error-suppressed arm; all 12 registers are coherent at the end -/
 def exProg04 : List Instr :=
@@ -44,5 +78,36 @@ def exProg04 : List Instr :=
 example : Fragment exProg04 ∧ (run (St.init 97 8 8) exProg04).err = none ∧
     (run (St.init 97 8 8) exProg04).regs.length = 12 := by
   refine ⟨⟨by decide, by decide, fun _ => by decide⟩, by decide +kernel, by decide +kernel⟩
+
+/-! non-vacuity for nesting: outer guard 1, inner guard 0, two deep; in the inner body `7 / 2` (not a
+multiple: error-suppressed arm) and `7 / y` by a `LinComb`; in the outer body an exact `/`.  Register
+9 holds value 52 = 7·2⁻¹ mod 97 with wire expression 49·x, register 11 the fresh wire with value 0. -/
+def exProg04n : List Instr :=
+  [.lit (.int 7), .mk .priv 0, .lit (.int 1), .mk .privb 2, .lit (.int 0), .mk .privb 4,
+   .genter 3, .genter 5, .lit (.int 2), .bin .truediv 1 8, .mk .priv 8, .bin .truediv 1 10,
+   .call .assertLt 1 [10], .gleave, .bin .truediv 1 1, .call .assertEq 14 [2], .gleave,
+   .bin .add 9 11, .call .val 14 []]
+
+example : ¬ Fragment exProg04n ∧ (run (St.init 97 8 8) exProg04n).err = none ∧
+    (run (St.init 97 8 8) exProg04n).regs.length = 19 ∧
+    (match (run (St.init 97 8 8) exProg04n).regs[17]? with
+      | some (Val.lc x) => x == ⟨52, [(Wire.priv 0, 49), (Wire.priv 46, 1)]⟩
+      | _ => false) = true := by
+  refine ⟨fun h => by have := h.2.1; revert this; decide, by kdec, by kdec, by kdec⟩
+
+/-! non-vacuity for user-selected ignore-errors mode: `set ign`, then a region guarded by a wire of
+value 5 (accepted in that mode), inside it a region guarded by 0, `7 / 2` in both bodies and an
+out-of-range comparison; mode switched back at the end.  17 registers, 64 constraints. -/
+def exProg04i : List Instr :=
+  [.setIgn true, .lit (.int 7), .mk .priv 1, .lit (.int 5), .mk .priv 3, .genter 4, .lit (.int 0), .mk .priv 6,
+   .genter 7, .lit (.int 2), .bin .truediv 2 9, .bin .lt 2 4, .gleave, .bin .truediv 2 9, .gleave, .setIgn false,
+   .bin .add 10 13]
+
+example : ¬ NoSetIgn exProg04i ∧ (run (St.init 97 8 8) exProg04i).err = none ∧
+    (run (St.init 97 8 8) exProg04i).regs.length = 17 ∧
+    (match (run (St.init 97 8 8) exProg04i).regs[16]? with
+      | some (Val.lc x) => x == ⟨104, [(Wire.priv 0, 98)]⟩
+      | _ => false) = true := by
+  refine ⟨fun h => by have := h _ (List.mem_cons_self ..); revert this; decide, by kdec, by kdec, by kdec⟩
 
 end Pysnark
